@@ -162,7 +162,12 @@ def cli(repo_dir, script, args, stdin='open', timeout=120, input_text=None, on_t
     signal (daemon-thread shutdown quirk)."""
     env = dict(os.environ)
     env['PYTHONDONTWRITEBYTECODE'] = '1'
-    env['PYTHONHASHSEED'] = '0'
+    # every command line gets its own string-hash seed (a function of its arguments: reproducible, but two different
+    # invocations - a limited and an unlimited run, a quit and its --load - never share one), and the tool's standard
+    # output is block-buffered as it is for a user who pipes it into a cracker (the sandbox exports PYTHONUNBUFFERED)
+    import zlib
+    env['PYTHONHASHSEED'] = str(zlib.crc32((script + ' ' + ' '.join(map(str, args))).encode('utf-8', 'replace')) % 4000000 + 1)
+    env.pop('PYTHONUNBUFFERED', None)
     env['PYTHONIOENCODING'] = 'utf-8'
     cmd = [core.PY, os.path.join(repo_dir, script)] + list(args)
     kw = dict(cwd=repo_dir, env=env, stdout=subprocess.PIPE, stderr=subprocess.PIPE)
